@@ -190,6 +190,12 @@ func check(d *decoder, in []byte) {
 			if ln > 0 && within(in, p, 1) {
 				fail(d.name+" alias", in, "%s (newBuf=true) returned memory inside the source buffer", d.name)
 			}
+			// an empty result must not be a window into the source either: its capacity is what an append would write to
+			if r.kind == 's' && ln == 0 && cap(r.sl) > 0 && len(in) > 0 {
+				if q := unsafe.Pointer(&r.sl[:1][0]); within(in[:cap(in)], q, 1) {
+					fail(d.name+" alias-empty", in, "%s (newBuf=true) returned an empty slice whose capacity (%d) lies inside the source buffer", d.name, cap(r.sl))
+				}
+			}
 		} else if !within(in, p, ln) {
 			fail(d.name+" bounds", in, "%s (newBuf=false) returned memory outside the input", d.name)
 		}
@@ -354,6 +360,18 @@ func main() {
 			buf := make([]byte, 16)
 			enum(cont, n, first, buf, work)
 		})
+	}
+	// very long runs of continuation bytes (shift counters, accumulators): 12..40 equal continuation bytes, terminated or not
+	for n := 12; n <= 40; n++ {
+		for _, c := range cont {
+			run0 := bytes.Repeat([]byte{c}, n)
+			checkAll(run0)
+			for _, t := range term {
+				for _, b := range bodies {
+					checkAll(append(append(append(make([]byte, 0, 48), run0...), t), b...))
+				}
+			}
+		}
 	}
 	samples.Add("adversarial family: 0..11 continuation bytes from {80,81,FF}, terminator from {00,01,7F}, body of 0..2 bytes: reaches length prefixes of 2^31, 2^63, 2^64-1 and over-long varints, e.g. ffffffffffffffffff01 (prefix 2^64-1)")
 	// mutated valid encodings: valid byte-string encodings of length 0..40 with the prefix byte replaced by every value and every truncation
